@@ -1,6 +1,9 @@
 package main
 
-import "strings"
+import (
+	"os"
+	"strings"
+)
 
 // Instantiation hints. A conjunction that holds universally quantified hypotheses together with skolem constants
 // (from a skolemised goal) is extended by the instances of those hypotheses at the skolem constants:
@@ -15,7 +18,56 @@ const hintCapTotal = 600
 // sat does not).
 func withInstHints(t *Term, dropQ bool) *Term {
 	n := 0
-	return instHints(t, true, dropQ, &n, map[int64]*Term{})
+	return instHints(propagateAsserted(t), true, dropQ, &n, map[int64]*Term{})
+}
+
+// propagateAsserted: a top-level conjunct of the asserted formula is true wherever else it occurs (unit
+// propagation; equivalence-preserving), and the negation of a conjunct "not X" is false. Path-relative facts of the
+// form (path ==> fact) thereby lose the path conditions that are asserted anyway, so that quantified facts guarded
+// by them surface as top-level conjuncts. Iterated to a fixed point (a few rounds).
+func propagateAsserted(t *Term) *Term {
+	if os.Getenv("SNESVC_NOPROP") != "" {
+		return t
+	}
+	for round := 0; round < 4; round++ {
+		if t.Op != "and" {
+			return t
+		}
+		sub := map[int64]*Term{}
+		for _, a := range t.Args {
+			if a.Op == "not" {
+				sub[a.Args[0].id] = False()
+			} else if a.S == BoolS && a.Op != "and" {
+				sub[a.id] = True()
+			}
+		}
+		if len(sub) == 0 {
+			return t
+		}
+		args := make([]*Term, len(t.Args))
+		ch := false
+		for i, a := range t.Args {
+			// the conjunct itself stays; occurrences inside the other conjuncts are replaced
+			var own int64
+			if a.Op == "not" {
+				own = a.Args[0].id
+			} else {
+				own = a.id
+			}
+			saved, had := sub[own]
+			delete(sub, own)
+			args[i] = Subst(a, sub)
+			if had {
+				sub[own] = saved
+			}
+			ch = ch || args[i] != a
+		}
+		if !ch {
+			return t
+		}
+		t = And(args...)
+	}
+	return t
 }
 
 func instHints(t *Term, pos bool, dropQ bool, total *int, memo map[int64]*Term) *Term {
@@ -54,12 +106,39 @@ func instHints(t *Term, pos bool, dropQ bool, total *int, memo map[int64]*Term) 
 				foralls = append(foralls, a)
 			}
 		}
+		// guarded quantified facts: G ==> forall x. F, i.e. not(and(G..., not(forall)))
+		type guarded struct {
+			idx    int
+			guards []*Term
+			f      *Term
+		}
+		var gfs []guarded
+		for i, a := range t.Args {
+			if a.Op == "not" && a.Args[0].Op == "and" {
+				in := a.Args[0]
+				for j, b := range in.Args {
+					if b.Op == "not" && b.Args[0].Op == "forall" {
+						var gs []*Term
+						for k, c := range in.Args {
+							if k != j {
+								gs = append(gs, c)
+							}
+						}
+						gfs = append(gfs, guarded{i, gs, b.Args[0]})
+					}
+				}
+			}
+		}
 		var extra []*Term
-		if len(foralls) > 0 {
+		if len(foralls) > 0 || len(gfs) > 0 {
 			sks := skolemsOf(t)
-			if len(sks) > 0 {
-				for _, f := range foralls {
-					extra = append(extra, instancesOf(f, sks, total)...)
+			gsel := groundSelects(t)
+			for _, f := range foralls {
+				extra = append(extra, instancesOf(f, sks, gsel, total)...)
+			}
+			for _, g := range gfs {
+				for _, inst := range instancesOf(g.f, sks, gsel, total) {
+					extra = append(extra, Not(And(append(append([]*Term(nil), g.guards...), Not(inst))...)))
 				}
 			}
 		}
@@ -69,14 +148,19 @@ func instHints(t *Term, pos bool, dropQ bool, total *int, memo map[int64]*Term) 
 				ch = true
 			}
 		}
-		if ch {
-			if dropQ {
-				for i, a := range t.Args {
-					if a.Op == "forall" {
-						args[i] = True()
-					}
+		if dropQ {
+			for _, g := range gfs {
+				args[g.idx] = True()
+				ch = true
+			}
+			for i, a := range t.Args {
+				if a.Op == "forall" {
+					args[i] = True()
+					ch = true
 				}
 			}
+		}
+		if ch {
 			r = And(append(args, extra...)...)
 		}
 	}
@@ -109,7 +193,84 @@ func skolemsOf(t *Term) []*Term {
 	return out
 }
 
-func instancesOf(f *Term, sks []*Term, total *int) []*Term {
+// groundSelects: for every closed array term, the closed index terms it is read at in the quantifier-free
+// conjuncts of a conjunction (the ground side of select-triggers)
+func groundSelects(t *Term) map[int64][]*Term {
+	out := map[int64][]*Term{}
+	seen := map[int64]bool{}
+	have := map[[2]int64]bool{}
+	var walk func(t *Term)
+	walk = func(t *Term) {
+		if seen[t.id] {
+			return
+		}
+		seen[t.id] = true
+		if t.Op == "forall" || t.Op == "lambda" {
+			return
+		}
+		if t.Op == "select" && !t.bound {
+			a, i := t.Args[0], t.Args[1]
+			for a.Op == "store" {
+				a = a.Args[0]
+			}
+			if k := [2]int64{a.id, i.id}; !have[k] && len(out[a.id]) < 12 {
+				have[k] = true
+				out[a.id] = append(out[a.id], i)
+			}
+		}
+		for _, a := range t.Args {
+			walk(a)
+		}
+	}
+	for _, a := range t.Args {
+		if a.Op != "forall" {
+			walk(a)
+		}
+	}
+	return out
+}
+
+// triggerArrays: the closed arrays that the body reads exactly at the bound variable bv
+func triggerArrays(body, bv *Term) []int64 {
+	var out []int64
+	seen := map[int64]bool{}
+	var walk func(t *Term)
+	walk = func(t *Term) {
+		if seen[t.id] || !t.bound {
+			return
+		}
+		seen[t.id] = true
+		if t.Op == "select" && t.Args[1] == bv && !t.Args[0].bound {
+			out = append(out, t.Args[0].id)
+		}
+		for _, a := range t.Args {
+			walk(a)
+		}
+	}
+	walk(body)
+	return out
+}
+
+// instancesOf: instances of a (nested) universal formula at the skolem constants, at the ground index terms
+// matched by its select-triggers and — while the number of combinations stays under the cap — at the neighbours
+// k+1 / k-1 of integer skolem constants (chains: element k against element k+1)
+func instancesOf(f *Term, sks []*Term, gsel map[int64][]*Term, total *int) []*Term {
+	if os.Getenv("SNESVC_NONEIGH") == "" && f.Args[1].Op != "forall" { // single binder only: neighbours of several binders are clutter
+		var ext []*Term
+		ext = append(ext, sks...)
+		for _, sk := range sks {
+			if sk.S.Kind == 1 && sk.S.W == 64 {
+				ext = append(ext, bin("bvadd", sk, Const(64, 1)), bin("bvsub", sk, Const(64, 1)))
+			}
+		}
+		if r := instancesOf1(f, ext, gsel, total); r != nil {
+			return r
+		}
+	}
+	return instancesOf1(f, sks, gsel, total)
+}
+
+func instancesOf1(f *Term, sks []*Term, gsel map[int64][]*Term, total *int) []*Term {
 	var binders []*Term
 	body := f
 	for body.Op == "forall" {
@@ -119,9 +280,23 @@ func instancesOf(f *Term, sks []*Term, total *int) []*Term {
 	cands := make([][]*Term, len(binders))
 	combos := 1
 	for i, b := range binders {
+		have := map[int64]bool{}
 		for _, s := range sks {
-			if s.S == b.S || s.S.String() == b.S.String() {
+			if (s.S == b.S || s.S.String() == b.S.String()) && !have[s.id] {
+				have[s.id] = true
 				cands[i] = append(cands[i], s)
+			}
+		}
+		// select-triggers: ground index terms at which the arrays read at b are read elsewhere
+		for _, aid := range triggerArrays(body, b) {
+			if os.Getenv("SNESVC_NOTRIG") != "" {
+				break
+			}
+			for _, g := range gsel[aid] {
+				if (g.S == b.S || g.S.String() == b.S.String()) && !have[g.id] && len(cands[i]) < 8 {
+					have[g.id] = true
+					cands[i] = append(cands[i], g)
+				}
 			}
 		}
 		if len(cands[i]) == 0 {
